@@ -18,6 +18,7 @@ import (
 	mbase "github.com/multiformats/go-multibase"
 
 	"verif/engine/run"
+	"verif/engine/seqx"
 	"verif/engine/store"
 	"verif/engine/world"
 )
